@@ -56,7 +56,10 @@ PROPS = {
         "statement": "Scenario.C04_exactly_once",
         "engines": [plan("funnel,plan,batch,tl"), trace("funnel,batch,tl,base", quick=50, **{"partial-modes": True}),
                     # histories with a caught panic between the dispatches
-                    trace("flat,batch", quick=20, thorough=600, panics=True), plan_nopar("plan,batch,tl")],
+                    trace("flat,batch", quick=20, thorough=600, panics=True), plan_nopar("plan,batch,tl"),
+                    # the asynchronous dispatcher: every ordinary system once per dispatch, every thread-local one once per wait
+                    {"engine": "asyncd", "args": {}, "quick": {"cases": 300}, "thorough": {"cases": 6000}}],
+        "also": {"C15": ["run-count", "tl-count"]},
         "aspects": TRACE,
         "assumptions": [RAYON],
     },
@@ -75,13 +78,16 @@ PROPS = {
         "statement": "Scenario.C05_schedule_independence: every trace of the parallel plan has the effect of the sequential trace, given that events of non-conflicting systems commute",
         "engines": [trace("flat,base,batch,tl,funnel", quick=100, rounds=4), trace("flat,base,batch", quick=30, nopar=True),
                     # what may run in parallel is decided by the plan: layouts against the model's, where groups have several members
-                    plan("funnel,plan", quick=500)],
+                    plan("funnel,plan", quick=500),
+                    # the hypothesis "depends only on the resources it declared" rests on the provided system-data types declaring what they borrow
+                    {"engine": "sysdata", "args": {}, "quick": {"exhaust-upto": 6, "samples": 12, "pre-samples": 6}, "thorough": {"exhaust-upto": 8, "samples": 100, "pre-samples": 30}}],
+        "also": {"C06": ["reads()", "writes()", "borrows"]},
         "aspects": TRACE + ["effects"],
         "assumptions": [RAYON, CELL, "the harness systems' update function (sys.rs::mix / Model/Effect.lean::mix) stands for 'behaviour that depends only on own state and declared resources'"],
     },
     "C07": {
         "statement": "C07_batch_reads/_writes (the batch accessor is exactly controller ∪ inner), C07_conflict_lifts, C07_nested_wf",
-        "engines": [plan("batch,plan"), trace("batch", quick=60), plan_nopar("batch")],
+        "engines": [plan("batch,plan"), trace("batch,kf1", quick=80), plan_nopar("batch")],
         "aspects": TRACE,
         "assumptions": [RAYON, CELL],
     },
